@@ -321,12 +321,16 @@ func (vc *FnVC) binop(x *ssa.BinOp) {
 		if sort == "Str" {
 			switch x.Op {
 			case token.LSS:
+				vc.e.strltFacts()
 				r = app("strlt", a, b)
 			case token.GTR:
+				vc.e.strltFacts()
 				r = app("strlt", b, a)
 			case token.LEQ:
+				vc.e.strltFacts()
 				r = not(app("strlt", b, a))
 			case token.GEQ:
+				vc.e.strltFacts()
 				r = not(app("strlt", a, b))
 			}
 		} else {
